@@ -116,11 +116,26 @@ def cells(tier):
 
 
 # ---------------------------------------------------------------------------------- execution
+class PushyServer(K.RecTransport):
+    """A server that goes ahead with the host-key algorithm under test even when the client did
+    not offer it (so that the *client's* refusal of a disabled algorithm is what gets observed)."""
+
+    forced_hostkey = None
+
+    def _really_parse_kex_init(self, m, ignore_first_byte=False):
+        parsed = K.RecTransport._really_parse_kex_init(self, m, ignore_first_byte)
+        if self.forced_hostkey and self.forced_hostkey not in parsed["server_key_algo_list"]:
+            parsed["server_key_algo_list"].append(self.forced_hostkey)
+            self.pushed = True
+        return parsed
+
+
 def run_kex_cell(cell):
     """Client verifies the server's kex signature."""
     def body(s):
-        p = F.Pair(hostkeys=(), tclass=K.RecTransport,
+        p = F.Pair(hostkeys=(), tclass=K.RecTransport, sclass=PushyServer,
                    client_kw={"disabled_algorithms": {"keys": list(cell["disabled"])}})
+        p.ts.forced_hostkey = cell["alg"]
         key = signing_key(cell)
         # the server owns `key` and offers exactly the algorithm under test
         p.ts.server_key_dict[cell["alg"]] = key
